@@ -274,6 +274,11 @@ def nuc_key(f, shared):
         for (c, ident) in shared:
             if c == col and ('"%s"' % ident) in f["detail"]:
                 return "nuc:NoShared:%s:%s" % (col, ident)  # a consequence of the shared identifier, same root cause
+    if f["clause"] == "Abundance" and col == "sum":
+        import re
+
+        m = re.search(r"ppb \|-> (-?\d+)", f["detail"])  # element and the sum it has: another wrong sum of the same element is another key
+        return "nuc:Abundance:sum:%s%s" % (f["who"], ":" + m.group(1) if m else "")
     return "nuc:%s:%s:%s" % (f["clause"], col, f["who"])
 
 
@@ -456,7 +461,8 @@ def run(rep, tier, seed):
         "the directory checked is the one the import of armi.nucDirectory built in this process, plus imposeBurnChain(resources/burn-chain.yaml)",
         "Am-242: the ground state is named AM242G; AM242 and nAm242 are aliases of AM242M (the only index keys that are not an identifier of the nuclide they return)",
         "MC2-2 identifiers are opaque library names (retrievable, agreeing, unique); MC2-3 identifiers follow the pattern symbol+A(+M), padded with _ to five characters, + 7",
-        "natural abundances sum to one within 1e-4 (the tabulated wallet-card percentages; armi's own tests use the same tolerance)",
+        "natural abundances sum to one within 1e-6 (single-precision data, at most ten natural isotopes: a normalised element is within 6e-7; "
+        "83 of 84 shipped elements are within 4e-8)",
         "library material = every class of armi.materials except Material, Fluid, SimpleSolid, FuelMaterial, Water (abstract), Custom, _Mixture, Void",
         "mass fractions sum to one within 1e-5 (ten units of the last decimal of the finest hand-typed composition, MOX)",
         "density = Material.density and Material.pseudoDensity, expansion = linearExpansionPercent (+ volumetricExpansion where a range is stated for it); "
@@ -724,6 +730,8 @@ def selftest():
         ("Element.append: no duplicate check", lambda: rebuilt(P(elements.Element, "append", append_no_sort_dedupe))),
         ("Element.getNaturalIsotopics: abundance >= 0", lambda: rebuilt(P(elements.Element, "getNaturalIsotopics", natural_ge_zero))),
         ("LumpNuclideBase registers with the Dummy element", lambda: rebuilt(P(nb.LumpNuclideBase, "__init__", lump_in_dummy_element))),
+        ("nuclides.dat: Dy-156 abundance 6.0e-4 -> 5.6e-4, not renormalised (sum 0.99996)",
+         lambda: rebuilt(files={"nuclides.dat": lambda t: t.replace("1.55924282934e+02 6.00000000000e-04", "1.55924282934e+02 5.60000000000e-04")})),
         ("nuclides.dat: Fe-56 abundance 0.9175 -> 0.9715", lambda: rebuilt(files={"nuclides.dat": lambda t: t.replace("9.17539980000e-01", "9.71539980000e-01")})),
         ("mcc-nuclides.yaml: PU239 and PU240 swap their VII.1 identifiers", lambda: rebuilt(files={"mcc-nuclides.yaml": _swap_pu})),
         ("burn-chain.yaml: product typo NP237 -> NP273", lambda: rebuilt(files={"burn-chain.yaml": lambda t: t.replace("- NP237", "- NP273", 1)})),
